@@ -81,7 +81,13 @@ func genSetOp(r *simhook.Rand, naddr int, reader bool) SetOp {
 	case 0, 1, 2:
 		return SetOp{Op: "add", Addr: r.Intn(naddr), Backup: r.Chance(1, 3)}
 	case 3, 4:
-		return SetOp{Op: "remove", Addr: r.Intn(naddr)}
+		op := SetOp{Op: "remove", Addr: r.Intn(naddr)}
+		if r.Chance(1, 3) {
+			// one removal call that lists more than one endpoint: the same one twice, another one, or one that was
+			// never a member (an endpoint update hands on whatever the discovery service listed)
+			op.List = []int{[]int{op.Addr, r.Intn(naddr), naddr + 1}[r.Intn(3)]}
+		}
+		return op
 	case 5:
 		op := SetOp{Op: "replace"}
 		for i := 0; i < naddr; i++ {
@@ -254,6 +260,9 @@ func setModelStep(state, input, output interface{}) (bool, interface{}) {
 	case "remove":
 		n := m.clone()
 		delete(n, in.addr)
+		for _, x := range in.list {
+			delete(n, x.addr)
+		}
 		return true, n
 	case "replace":
 		n := setModel{}
@@ -361,8 +370,15 @@ func (p c15) runSet(t *testing.T, sc *C15Scenario) harness.Outcome {
 					case "remove":
 						// the way the controller does it: a fresh object built from the endpoint address
 						h, _ := newHost(op.Addr, op.Backup)
-						set.Remove(h)
-						record(ti, setIn{op: "remove", addr: a}, call, setOut{})
+						hs := []*host.Host{h}
+						var extra []mHostAt
+						for _, x := range op.List {
+							xh, _ := newHost(x, op.Backup)
+							hs = append(hs, xh)
+							extra = append(extra, mHostAt{addr: addrOf(x)})
+						}
+						set.Remove(hs...)
+						record(ti, setIn{op: "remove", addr: a, list: extra}, call, setOut{})
 					case "replace":
 						var hs []*host.Host
 						var list []mHostAt
